@@ -140,7 +140,7 @@ PROPERTY = {
 _MANY = ['layer', 'identity', 'seq', 'layer', 'identity', 'layer', 'layer', 'identity', 'layer', 'seq', 'layer', 'identity']
 
 HARNESSES = [
-    dict(name='export-graph', fn='h_export', property=['C03'],
+    dict(name='export-graph', bounded='enumerated topologies (1..3 blocks, 2..3 and 12 branches, a block invoked twice); values symbolic', fn='h_export', property=['C03'],
          functions=['plinio/methods/supernet/graph.py::export_graph', 'plinio/methods/supernet/graph.py::link_combiners_to_branches',
                     'plinio/methods/supernet/nn/combiner.py::SuperNetCombiner.best_layer_index', 'plinio/methods/supernet/nn/combiner.py::SuperNetCombiner.forward',
                     'plinio/graph/inspection.py::is_layer', 'plinio/graph/inspection.py::layer_type'],
